@@ -13,6 +13,7 @@ mod c04;
 mod c05;
 mod c06;
 mod c07;
+mod c07_world;
 mod c08;
 mod c09;
 mod c10;
